@@ -228,3 +228,19 @@ def run(repo: Repo, chk: Check, thorough: bool = False) -> None:
     sp = [c for c in calls_in(pp) if call_name(c) == 'split']
     ok = bool(sp) and any(isinstance(n, ast.Compare) and 'len(parts)' in norm(n) and '2' in norm(n) for n in pp.walk())
     chk.ob('R13.3', 'utils.parse_privacy_tuple :: exactly <privacy>:<pattern>', ok, "split(':') and len(parts) != 2 -> error", pp.loc)
+
+    cpv = repo.func('pydoctor.options._convert_privacy')
+    lossy = [n for n in cpv.walk() if isinstance(n, (ast.Dict, ast.Set, ast.DictComp, ast.SetComp)) or
+             (isinstance(n, ast.Call) and isinstance(n.func, ast.Name) and n.func.id in ('dict', 'set', 'frozenset', 'sorted', 'reversed')) or
+             (isinstance(n, ast.Assign) and any(isinstance(t, ast.Subscript) for t in n.targets))]
+    prm = [p.arg for p in cpv.params()]
+    per_elem = any(isinstance(n, ast.Call) and call_name(n) == 'map' and len(n.args) == 2 and norm(n.args[1]) == prm[0] for n in cpv.walk()) or \
+        any(isinstance(n, (ast.ListComp, ast.For)) and norm(n.generators[0].iter if isinstance(n, ast.ListComp) else n.iter) == prm[0] for n in cpv.walk())
+    chk.ob('R13.3', 'options._convert_privacy :: rules keep their command-line order and multiplicity', per_elem and not lossy,
+           'one (privacy, pattern) per --privacy value, in order' if per_elem and not lossy else
+           f'the rule list is rebuilt through `{norm(lossy[0])[:40] if lossy else "?"}`: repeated patterns lose their position, so "the rule given '
+           'last wins" no longer holds between overlapping rules', cpv.loc)
+    op = repo.func('pydoctor.options.get_parser')
+    pa = [c for c in calls_in(op) if call_name(c) == 'add_argument' and any(isinstance(a, ast.Constant) and a.value == '--privacy' for a in c.args)]
+    ok = bool(pa) and any(k.arg == 'action' and isinstance(k.value, ast.Constant) and k.value.value == 'append' for k in pa[0].keywords)
+    chk.ob('R13.3', 'options.get_parser :: --privacy accumulates in order', ok, "action='append'" if ok else '--privacy no longer appends', op.loc)
